@@ -143,7 +143,7 @@ HARNESSES += [
     {"name": "process_start_child", "props": ["C10", "C11", "C12", "C03", "C04"], "src": "h_process_start.c",
      "contracts": ["public.h"], "includes": ["process.posix.c", "strv.c"], "enforce": "process_start",
      "replace": ["process_fork", "path_prepend_cwd"],
-     "defs": {"SIDE_CHILD": None}, "unwind": 10, "no_leak_check": True, "must_fail": ["reach/exec", "reach/_exit"],
+     "defs": {"SIDE_CHILD": None}, "unwind": 10, "unwindset": ["harness.0:34"], "no_leak_check": True, "must_fail": ["reach/exec", "reach/_exit"],
      "what": "process_start, child side: symbolic, possibly aliasing child handles; the execvp contract of the OS layer "
              "asserts stream identity and direction, close-on-exec of everything else, the exit handle, signal state, "
              "program, argv, environment and working directory; failures go through the error pipe"},
@@ -358,7 +358,7 @@ PROPERTY_META = {
                 "device, /dev/null, path opened O_RDONLY/O_WRONLY, user handle/FILE, stderr->stdout), reproc_start (parent holds a pipe "
                 "end exactly for piped streams), and the child side of process_start against the execvp launch contract: object "
                 "identity and direction of descriptors 0,1,2, not close-on-exec.",
-        "note": OS_NOTE + "Known finding D11 (child handles / library pipes numbered 0..2 clobbered by the dup2 sequence) excluded and listed.",
+        "note": OS_NOTE + "The child handles are symbolic and may alias each other and descriptors 0, 1, 2 in any way (no exclusion).",
         "design_ref": "§3 C10", "not_decided": ["redirect.windows.c"]},
     "C11": {"claimed": True, "level": "proof",
         "text": "Child side of process_fork with the close-all loop closed by a loop contract (unbounded up to the 1 Mi cap): every "
